@@ -145,8 +145,13 @@ def gen_c14(r, count, tier):
             t["data"] = b"some input for the first command\n"
         if pin == "file":
             t["filedata"] = b"file input\n"
-        # every started command copies its input to its output: it ends when its input ends or its reader is gone
-        t["stub"] = [["streamcat <T%d>" % i, "exit 0"] for i in range(n)]
+        # every started command copies its input to its output: it ends when its input ends or its reader is gone;
+        # every other scenario uses stages that write nothing before their input has ended (like cat: such a stage
+        # never notices by itself that its reader is gone)
+        if q % 2:
+            t["stub"] = [["cat", "exit 0"] for i in range(n)]
+        else:
+            t["stub"] = [["streamcat <T%d>" % i, "exit 0"] for i in range(n)]
         out.append(t)
     # an unbounded producer in front: it ends only when the reader of its output is gone -- which it is once the
     # command that cannot be started has dropped the File it was handed (nobody else may hold that pipe's read end)
@@ -176,6 +181,7 @@ CHILD = {
     "flood1": ["writeforever 1", "exit 0"],
     "flood2": ["writeforever 2", "exit 0"],
     "hold": ["hold"],
+    "cat": ["cat", "exit 0"],
 }
 KCLS = {"exit": "KExit", "late": "KExit", "readeof": "KReadEOF", "filter": "KFilter", "burst1": "KWriter 1", "burst2": "KWriter 2",
         "flood1": "KWriter 1", "flood2": "KWriter 2"}
@@ -230,6 +236,12 @@ def gen_c12(r, count, tier):
             pl.append(("join", ["late"] + ["filter"] * (n - 1), "drop", det, {"pstdout": "null"}))
             pl.append(("capture", ["burst1"] + ["filter"] * (n - 1), "drop", det, {}))
             pl.append(("capture", ["noread-flood1"] + ["filter"] * (n - 1), "drop", det, {"pstdin": "data", "data": b"i" * 300000, "expect_err": 32}))
+    # a pipeline whose last command cannot be started, reached through the adapters: the pipe ends the caller never
+    # got must be released before the started commands are waited for
+    for n in (3, 4):
+        pl.append(("stream_stdin", ["cat"] * n, "drop", False, {"failk": n - 1, "expect_err": 2, "pstdout": "null"}))
+        pl.append(("stream_stdout", ["cat"] * n, "drop", False, {"failk": n - 1, "expect_err": 2, "pstdin": "pipe"}))
+        pl.append(("capture", ["cat"] * n, "drop", False, {"failk": n - 1, "expect_err": 2, "pstdin": "data", "data": b"i" * 1000}))
     for (term, kids, after, det, extra) in pl:
         t = {"id": "c12-%d" % q, "kind": "pipeline", "n": len(kids), "term": term, "after": after, "detached": det, "child": kids,
              "stub": [CHILD[k] for k in kids], "shape": r.choice(["left", "iter"]), "stderr_to": False, "watchdog": 12}
@@ -852,6 +864,15 @@ def c09_real(chk, tier, explicit=None):
             for g in sigs:
                 tpls.append({"id": "c09r-%d" % q, "kind": "handle", "n": 1, "term": term, "stub": [["raise %d" % g, "exit 99"]], "want": "signaled:%d" % g, "watchdog": 10})
                 q += 1
+    if explicit is None:
+        # the same through a detached command: capture() still reports the real status, after the child is gone
+        for c in (0, 7, 255):
+            tpls.append({"id": "c09r-%d" % q, "kind": "handle", "n": 1, "term": "capture", "detached": True,
+                         "stub": [["write 1 10", "close 1", "close 2", "sleep 400", "exit %d" % c]], "want": "exited:%d" % c, "watchdog": 10})
+            q += 1
+        tpls.append({"id": "c09r-%d" % q, "kind": "handle", "n": 1, "term": "capture", "detached": True,
+                     "stub": [["close 1", "close 2", "sleep 300", "raise 15", "exit 99"]], "want": "signaled:15", "watchdog": 10})
+        q += 1
     scns = [scenario_of(t) for t in tpls]
     e2.run_scenarios(scns, "C09real")
     raws, idx = [], []
@@ -972,6 +993,76 @@ def c10_real(chk, tier, explicit=None):
     chk.cov["real_process_signalling"] = len(scns)
 
 
+def c14_fd_exhaustion(chk, tier, explicit=None):
+    """C14 where a command cannot be started because a descriptor cannot be allocated: the k-th pipe() / fcntl() of the
+    whole pipeline start fails with EMFILE, for every k the start reaches -- the call returns that error promptly, the
+    commands already started are released and reaped, nothing of the attempt stays open"""
+    if explicit is not None:
+        tpls = explicit
+    else:
+        tpls = []
+        q = 0
+        for n in (3, 4):
+            for term, pin, extra in (("capture", "data", {}), ("stream_stdin", "none", {"pstdout": "null"}), ("popen", "none", {"stderr_to": True, "pstdout": "null"}),
+                                     ("join", "file", {"stderr_to": True, "pstdout": "null"})):
+                for kind, ks in (("pipe", range(2, 2 * n + 2)), ("fcntl", range(3, 8 * n)), ("dupfd", range(1, n + 1))):
+                    for k in ks:
+                        t = {"id": "c14-fd-%d" % q, "kind": "pipeline", "n": n, "term": term, "pstdin": pin, "shape": "left", "after": "drop",
+                             "stub": [["cat", "exit 0"]] * n, "fault": [kind, k, 24], "watchdog": 12}
+                        if pin == "data":
+                            t["data"] = b"some input\n"
+                        if pin == "file":
+                            t["filedata"] = b"file input\n"
+                        t.update(extra)
+                        tpls.append(t)
+                        q += 1
+    scns = []
+    for t in tpls:
+        s = scenario_of(t)
+        s["spec"] = s["spec"] + ["fault %s %d %d parent" % (t["fault"][0], t["fault"][1], t["fault"][2])]
+        scns.append(s)
+    e2.run_scenarios(scns, "C14fd")
+    n_ok = 0
+    reached = 0
+    for s in scns:
+        t = s["tpl"]
+        what = "%s %s n=%d stdin=%s: the %d-th %s() of the start fails with EMFILE" % (t["id"], t["term"], t["n"], t["pstdin"], t["fault"][1], t["fault"][0])
+        replay = "fdexhaust\n" + tpl_to_json(t)
+        if s.get("timed_out"):
+            chk.violation("C14: the call never returned (watchdog %ss) [%s]" % (s["timeout"], what), replay)
+            continue
+        if s.get("rc") != 0:
+            chk.violation("C14: the scenario process failed (rc=%s) [%s] %s" % (s.get("rc"), what, s.get("stderr", "")[-200:].replace("\n", " ")), replay)
+            continue
+        res = out_field(s, "term") or ""
+        bad = []
+        if res.startswith("err"):
+            reached += 1
+            if not res.startswith("err io:24"):
+                bad.append("returned %s, expected the error of the failing allocation (EMFILE)" % res)
+            z = zombies(s)
+            if z is not None and (z[0] or z[1]):
+                bad.append("after the failed start %d zombie(s) and %d running command(s) of the attempt remain" % z)
+            before = after = None
+            for ln in s["out"]:
+                if ln.startswith("fds_before "):
+                    before = sorted(e2.parse_fdtable(ln))
+                elif ln.startswith("fds_after "):
+                    after = sorted(e2.parse_fdtable(ln))
+            if before is not None and after is not None and before != after:
+                bad.append("descriptors of the attempt remain open in the parent: before=%s after=%s" % (before, after))
+        elif not res.startswith("ok"):
+            bad.append("the terminator reported %r" % res)
+        if bad:
+            chk.violation("C14: %s [%s]" % ("; ".join(bad), what), replay)
+        else:
+            n_ok += 1
+    chk.cov["evaluations"] = chk.cov.get("evaluations", 0) + len(scns)
+    chk.cov["traces_validated_against_impl"] = chk.cov.get("traces_validated_against_impl", 0) + n_ok
+    chk.cov["fd_exhaustion_scenarios"] = len(scns)
+    chk.cov["fd_exhaustion_reached"] = reached
+
+
 def gen_c01_real(tier):
     """communicate-style exchanges with real processes: the consumer of a pipeline leaves early, a command does not
     read (all of) the input it is fed, outputs alternate between the streams above the pipe capacity"""
@@ -1006,6 +1097,13 @@ def gen_c01_real(tier):
                     t["pstdin"], t["data"] = "data", data
                 out.append(t)
                 q += 1
+        # the child closes its stdin unread and then writes more than a pipe holds: the exchange fails with EPIPE while
+        # output is pending -- whatever is done next (capture waits for the child) must not leave that output unread
+        for outsz in (70000, 300000):
+            out.append({"id": "c01r-%d" % q, "kind": "handle", "n": 1, "term": term, "pstdin": "data", "data": b"d" * 300000,
+                        "stub": [["close 0", "write 1 %d" % outsz, "write 2 %d" % outsz, "exit 0"]],
+                        "what": "the child closes stdin unread, then writes %d bytes to each output" % outsz, "watchdog": 10})
+            q += 1
         # both outputs above the pipe capacity, alternating, while input is pending
         for order in ((1, 2), (2, 1)):
             out.append({"id": "c01r-%d" % q, "kind": "handle", "n": 1, "term": term, "pstdin": "data", "data": b"d" * 200000,
